@@ -13,11 +13,12 @@ APIS = ("scgi", "fastcgi", "http")
 
 
 class Case:
-    __slots__ = ("api", "mode", "segs", "absreq", "tag", "out", "d", "impl", "hints", "model", "mflags", "mline", "reads", "hp", "nreq")
+    __slots__ = ("api", "mode", "segs", "absreq", "tag", "out", "d", "impl", "hints", "model", "mflags", "mline", "reads", "hp", "nreq", "peer")
 
     def __init__(self, api, mode, segs, absreq=None, tag="", nreq=None):
         self.api, self.mode, self.segs, self.absreq, self.tag = api, mode, [s for s in segs if s], absreq, tag
         self.nreq = nreq
+        self.peer = None
         self.out = self.d = self.impl = self.model = self.mline = None
         self.hints, self.mflags, self.reads, self.hp = "", set(), [], None
 
@@ -157,6 +158,7 @@ def pick_diverse(bad, n):
 
 def clone_case(x):
     y = Case(x.api, x.mode, x.segs, absreq=x.absreq, tag=x.tag, nreq=x.nreq)
+    y.peer = x.peer
     return y
 
 
